@@ -413,8 +413,12 @@ impl<'a, G: GroupApi> Mach<'a, G> {
     fn put(&mut self, dst: usize, e: Ev, r: Result<G, String>) -> bool {
         let e = e.n("dst", dst as i64);
         match r {
-            Ok(p) => match guarded(move || p.encode()) {
-                Ok(enc) => { self.tr.emit(e.b("out", &enc)); self.regs[dst] = p; true }
+            Ok(p) => match guarded(move || (p.encode(), p.encode_c())) {
+                Ok((enc, encc)) => {
+                    let e = e.b("out", &enc);
+                    let e = match encc { Some(c) => e.b("outc", &c), None => e };
+                    self.tr.emit(e); self.regs[dst] = p; true
+                }
                 Err(m) => { self.tr.emit(e.s("panic", &m)); false }
             },
             Err(m) => { self.tr.emit(e.s("panic", &m)); false }
@@ -907,6 +911,27 @@ fn run_smul<G: GroupApi>(tr: &mut Trace, rng: &mut Rng, plan: &Plan) {
         ok = ok && m.mulgen(5, k, v) && m.mul(6, 1, k, v) && m.mul(7, 2, k, v >> 1);
         if i % 4 == 0 { ok = ok && m.mul(8, 4, k, v) && m.mul(9, 0, k, v) && m.mul(9, 3, k, v); }
         if ok { m.equals(5, 6); }
+    }
+    // multiplications whose running accumulator passes exactly through a special point T (x = 0, low order, ...) right
+    // after a window's doublings: P = T / 2^(w*j) (scalar inverse modulo the order, computed through the API) and
+    // multipliers m * 2^(w*j) + low with small m, for window widths 4 and 5 and ranks j = 1, 2, 3
+    let n = G::order();
+    for (ti, t) in sp.iter().enumerate() {
+        for (w, j) in [(5usize, 1usize), (4, 1), (5, 2), (5, 3), (4, 3)] {
+            if (ti + w + j) % 2 == 1 && plan.scalars < 100 { continue; }
+            let sh = BigUint::from(1u32) << (w * j);
+            let inv = sh.modpow(&(&n - 2u32), &n);
+            m = Mach::<G>::new(tr);
+            if !(m.decode(3, t) && m.mul(4, 3, &to_le(&inv, G::SC_LEN), 0)) { continue; }
+            let mut ks: Vec<BigUint> = vec![sh.clone(), &sh + 1u32, &sh * 2u32, &sh * 3u32 + 7u32, &sh * 17u32, (&sh * 16u32) - 1u32, &n - &sh];
+            ks.push(&sh + (BigUint::from_bytes_le(&rng.bytes(8)) % &sh));
+            ks.push((BigUint::from_bytes_le(&rng.bytes(G::SC_LEN)) % &n >> (w * j)) << (w * j) | &sh);
+            for (i, k) in ks.iter().enumerate() {
+                if !m.mul(5, 4, &to_le(&(k % &n), G::SC_LEN), i as u32) { break; }
+            }
+            let _ = m.xdouble(6, 4, (w * j) as u32) && m.xdouble(7, 4, (w * j - 1) as u32) && m.un("double", 8, 7, 0);
+            m.equals(6, 3); m.equals(8, 3);
+        }
     }
 }
 
